@@ -5,7 +5,7 @@ import random
 
 from vf.core.result import Res
 from vf.gen.ir import E, source, walk
-from vf.gen.programs import Gen
+from vf.gen.programs import Gen, stress_program
 from vf.progcheck import Accept, Reject, Unspec, blocks_equal, model_of, nodetap, run_ir
 from vf.taps.nodetap import analyse
 
@@ -152,7 +152,10 @@ def run_shard(shard: dict) -> Res:
     res = Res()
     rng = random.Random(shard["seed"])
     for i in range(shard["n"]):
-        if i % 4 == 0:
+        if i % 19 == 18:
+            p = stress_program(rng)
+            res.see("stress_families", p["family"])
+        elif i % 4 == 0:
             p = directed(rng)
             res.see("directed_families", p["family"])
         else:
